@@ -40,11 +40,12 @@ type world struct {
 	strat    map[int]bool // gotype -> implements Resolver
 	objs     map[int]interface{}
 	calls    []sx.S
-	strat3   map[int]byte     // C02: gotype -> 'R', 'A' or 'F' (reflection); overrides strat
-	decl     map[[2]int][]int // C02: (gotype, field) -> declared argument names in order
-	regOrder map[[2]int][]int // C02: the parameter order given to RegisterField, when it was used
-	filled   map[int]bool     // C02: struct objects whose fields have all been placed
-	objField map[[2]int]bool  // C02: (gotype, field) -> the field's type is a plain object type (no list, not abstract)
+	strat3   map[int]byte           // C02: gotype -> 'R', 'A' or 'F' (reflection); overrides strat
+	decl     map[[2]int][]int       // C02: (gotype, field) -> declared argument names in order
+	regOrder map[[2]int][]int       // C02: the parameter order given to RegisterField, when it was used
+	consts   map[[2]int]interface{} // (node, field) -> the Go value a constant field holds
+	filled   map[int]bool           // C02: struct objects whose fields have all been placed
+	objField map[[2]int]bool        // C02: (gotype, field) -> the field's type is a plain object type (no list, not abstract)
 }
 
 type lres struct{ items []interface{} }
@@ -282,7 +283,17 @@ func (w *world) resolve(id int, f *ggql.Field, args map[string]interface{}) (int
 	}
 	switch b.kind {
 	case "const":
-		return w.goValue(b.v), nil
+		// the data is the application's own: the same Go value (the same slice) every time the field is
+		// asked for - by another alias, another element, another request on the same root
+		if w.consts == nil {
+			w.consts = map[[2]int]interface{}{}
+		}
+		if v, ok := w.consts[[2]int{id, name}]; ok {
+			return v, nil
+		}
+		v := w.goValue(b.v)
+		w.consts[[2]int{id, name}] = v
+		return v, nil
 	case "fail":
 		v := w.goValue(b.v)
 		if b.k == 0 {
@@ -291,6 +302,10 @@ func (w *world) resolve(id int, f *ggql.Field, args map[string]interface{}) (int
 		var es ggql.Errors
 		for i := 0; i < b.k; i++ {
 			es = append(es, fmt.Errorf("resolver failed %d", i))
+		}
+		if b.k >= 2 && (id+name)%2 == 0 {
+			// the same failures as a group that holds a group (a resolver passing on what its steps returned)
+			es = ggql.Errors{es[0], es[1:]}
 		}
 		return v, es
 	case "echo":
@@ -453,6 +468,8 @@ func argDefsText(args []sx.S) string {
 
 func schemaText(types []sx.S) string {
 	var b strings.Builder
+	// an executable directive of the schema's own: it may stand on any selection and chooses nothing
+	b.WriteString("directive @d8 on FIELD | FRAGMENT_SPREAD | INLINE_FRAGMENT\n")
 	if queryNamed != 0 {
 		b.WriteString("schema { query: " + typeName(1))
 		for _, t := range types {
